@@ -1,59 +1,148 @@
 """Configuration of ./check for C04 (see tools/props.py)."""
 ENTRY = {'coq_dir': 'C04',
  'harness': 'c04',
- 'cases': {'quick': 600, 'thorough': 9000},
- 'consts': ['BACKPRESSURE_BOUNDARY', 'SUBSTREAM_READ_BUFFER_INIT', 'SUBSTREAM_READ_BUFFER_INIT_OTHER', 'SUBSTREAM_SIZE_VEC_LEN'],
+ 'cases': {'quick': 700, 'thorough': 9000},
+ 'quick_streams': [('extra', '{V}/tools/c04_extra_streams.sh {seed} 250')],
+ 'thorough_streams': [('extra', '{V}/tools/c04_extra_streams.sh {seed} 4000')],
+ 'consts': ['BACKPRESSURE_BOUNDARY',
+            'SUBSTREAM_READ_BUFFER_INIT',
+            'SUBSTREAM_READ_BUFFER_INIT_OTHER',
+            'SUBSTREAM_SIZE_VEC_LEN',
+            'YAMUX_DEFAULT_CREDIT',
+            'WEBRTC_MAX_INFLIGHT_MESSAGES',
+            'C19_WEBRTC_MAX_FRAME_SIZE',
+            'SUBSTREAM_ERRORKINDS_MASK',
+            'SUBSTREAM_IOERR_KEEPS_KIND',
+            'SEND_IDENTITY_MAPS_WRITE_ERR_TO_CLOSED',
+            'ERROR_KINDS_LEN',
+            'EK_PERMISSION_DENIED',
+            'EK_WRITE_ZERO',
+            'EK_BROKEN_PIPE'],
  'nontrivial_min_trace': 12,
- 'rule': 'seeded random cases. (A) the real substream::Substream over a scripted in-memory carrier (SubstreamType::Verif hook; one script '
-         'event per poll_read/poll_write/poll_flush/poll_shutdown call): codec in {Identity n: n in 0,1,5,10,300,1023,1024,1025,2048,4000,'
-         '65536,66000,70000} u {UnsignedVarint(None)} u {UnsignedVarint(Some m): m in 0,1,20,127,128,300,16384,70000,2^21}; 1-8 (thorough '
-         '1-12) messages incl. empty, maximal, max+1 / wrong-size, > BACKPRESSURE_BOUNDARY; operations poll_ready / start_send / '
-         'poll_flush / send_framed / Sink::poll_close / Substream::close in random interleavings (sink only, send_framed only, freely '
-         'mixed incl. send_framed on a half-written Sink frame, writer stopping right after a flush, start_send then close without '
-         'flush — where the queued frames are, as the code has it, not sent); write and read scripts with chunk sizes 1-3, 1-40, boundary values, 2^20, Pending stalls, permanent stalls, carrier '
-         'errors, zero-length accepts (WriteZero) and end of stream at random points, operations continued after errors; raw reader '
-         'streams with truncated, non-minimal, over-long (10/11-byte) and oversized length prefixes, polled on after errors. After '
-         'every writer operation: result, pending_out_bytes, queued frame lengths, pending_out_frame, bytes newly handed to the '
-         'carrier (run-length encoded), number of unused carrier script events, carrier-shutdown flag and the wake-up flag (a Pending '
-         'answer must follow a Pending carrier call that was given the caller\'s waker) are diffed against the extracted Coq model; '
-         'after every poll_next: result, returned frame bytes, read_buffer.len(), offset, current_frame_size, unread wire, unused '
-         'script events, wake-up flag. (B) every 25th case runs end to end over a real in-memory yamux connection with the TCP or '
-         'the WebSocket substream type on both ends (VerifYamuxPair hook): SinkExt::feed / flush / send_framed / close on one side, '
-         'a concurrent reader on the other, messages up to 2 MB (several 256 KiB flow-control windows), fixed sizes up to 300000; the '
-         'per-call results, the frames delivered and the clean end of stream are compared with the model\'s prediction. Non-trivial = '
-         'trace of >= 12 numbers; distinct = distinct (case, trace) pairs. The corpus witnesses of the six repaired defects '
-         '(F-C04a..f) and the close-without-flush observation cases are replayed first on every run.',
- 'trusted_base': ['the scripted carrier of harness/src/c04.rs stands for the transport substream; tcp::Substream and websocket::Substream '
-                  'are stateless pass-through wrappers of a yamux stream (read: metering only) and are exercised by the end-to-end cases; '
-                  'the QUIC and WebRTC substream types are not run (QUIC send_framed uses write_all_chunks, a separate code path)',
-                  'message payloads in the runs are a fill byte plus an end marker (run-length encoded in traces); the theorems quantify '
-                  'over arbitrary byte lists',
-                  'unsigned_varint 0.8 encode/decode is transcribed by hand into Model.v (enc_fuel / scan) and exercised by the '
-                  'differential run',
-                  'flush_all (SinkExt::flush(..).await inside send_framed / close) uses explicit fuel S(length script); '
-                  'C04_flush_all_fuel_adequate shows the fuel is never exhausted'],
- 'level_text': 'Proof: on the model of the repaired src/substream/mod.rs (fix: commits F-C04a..f) — receiver totality for every codec, '
-               'byte stream, fragmentation and polling pattern (no panic, read buffer <= max(configured size, 1024)); malformed/oversized '
-               'length => ReadFailure without allocation; reader round trip for every script incl. errors and end of stream at any point; '
-               'conservation invariant (carrier bytes ++ queued bytes = encodings of the accepted messages in call order) over every '
-               'history of poll_ready/start_send/poll_flush/send_framed/poll_close/close and every carrier behaviour incl. write errors '
-               'and zero-length accepts (C04_mixed_paths_in_order: whole frames, each once, never interleaved or overtaking); poll_flush '
-               'reports Ready(Ok) only with nothing queued; send_framed hands over the queued bytes and then exactly its frame when it '
-               'returns Ok; poll_close/close are the carrier\'s shutdown only: they hand over no byte and leave the queue alone '
-               '(C04_close_sends_nothing), and after a completed flush a completed close has everything on the wire and the carrier '
-               'shut down (C04_close_after_flush_complete, C04_close_all_after_flush_complete); carrier errors are reported by the call that met them; Pending only after a Pending carrier call; sender refusal; backpressure bound; '
-               'end-to-end round trip; Identity(0) and UnsignedVarint(None) stated as the code behaves (C04_identity_zero, '
-               'C04_varint_none_unbounded_alloc). The model is tied to the Rust code by a per-call differential run with state dumps '
-               'and by end-to-end runs over real yamux substreams of the TCP and WebSocket types.',
- 'level_note': 'Trusted: Coq kernel, ExtrOcamlBasic extraction, harness and hooks, hand transcription of unsigned_varint. Not modelled: '
-               'yamux flow control itself (exercised end to end, not proved); waker identity (checked by the harness, the model only '
-               'shows that a Pending answer follows a Pending carrier call); a send_framed call that fails or is dropped midway leaves '
-               'a partial frame on the wire (the caller is told; documented as not cancellation safe) — histories are quantified over '
-               'send_framed calls that ran to completion; UnsignedVarint(None) allocates any announced length (proved as such, see '
-               'also C19); Identity(0) delivers nothing (proved as such); QUIC/WebRTC substream types.',
+ 'rule': 'seeded random cases. (A) the real substream::Substream over a scripted in-memory carrier (SubstreamType::Verif hook; one script event per '
+         'poll_read/poll_write/poll_flush/poll_shutdown call): codec in {Identity n: n in 0,1,5,10,300,1023,1024,1025,2048,4000,65536,66000,70000} u '
+         '{UnsignedVarint(None)} u {UnsignedVarint(Some m): m in 0,1,20,127,128,300,16384,70000,2^21}; 1-8 (thorough 1-12) messages incl. empty, '
+         'maximal, max+1 / wrong-size, > BACKPRESSURE_BOUNDARY; operations poll_ready / start_send / poll_flush / send_framed / Sink::poll_close / '
+         'Substream::close in random interleavings (sink only, send_framed only, freely mixed incl. send_framed on a half-written Sink frame, writer '
+         'stopping right after a flush, start_send then close without flush — where the queued frames are, as the code has it, not sent); write and '
+         'read scripts with chunk sizes 1-3, 1-40, boundary values, 2^20, Pending stalls, permanent stalls, carrier errors, zero-length accepts '
+         '(WriteZero) and end of stream at random points, operations continued after errors; raw reader streams with truncated, non-minimal, '
+         'over-long (10/11-byte) and oversized length prefixes, polled on after errors. After every writer operation: result, pending_out_bytes, '
+         'queued frame lengths, pending_out_frame, bytes newly handed to the carrier (run-length encoded), number of unused carrier script events, '
+         "carrier-shutdown flag and the wake-up flag (a Pending answer must follow a Pending carrier call that was given the caller's waker) are "
+         'diffed against the extracted Coq model; after every poll_next: result, returned frame bytes, read_buffer.len(), offset, '
+         'current_frame_size, unread wire, unused script events, wake-up flag. (B) two cases in fifty run end to end over a real in-memory yamux '
+         'connection with the TCP or the WebSocket substream type on both ends (VerifYamuxPair hook): SinkExt::feed / flush / send_framed / close on '
+         'one side, a concurrent reader on the other, messages up to 2 MB (several 256 KiB flow-control windows), fixed sizes up to 300000; the '
+         "per-call results, the frames delivered and the clean end of stream are compared with the model's prediction. Non-trivial = trace of >= 12 "
+         'numbers; distinct = distinct (case, trace) pairs. The corpus witnesses of the six repaired defects (F-C04a..f) and the close-without-flush '
+         'observation cases are replayed first on every run. Scripted failures carry every io::ErrorKind of the table extracted by '
+         'tools/gen_c04_tables.py (corpus/C04/errkinds.case: each of the 20 kinds in a Sink flush, in send_framed under both codecs and on the '
+         'reading side). (C) kind 30, 7 cases in fifty: the tokio-util codecs of src/codec called one method at a time — Identity::new(n) (n in 0 '
+         '[panics, documented],1,2,5,10,48,300,1024,4000), UnsignedVarint::new(None / Some m), with_max_size(m): Encoder::encode and the static '
+         'encode of fitting, too long, too short and empty messages (result and appended bytes), then the wire (plus raw bytes: over-long, '
+         'non-minimal, oversized, truncated prefixes) fed in chunks of 1-3, 1-40, boundary sizes or all at once with `decode` called until '
+         'None/error after every chunk (every result, frame and buffer length), decode_eof, the static decode. kind 31, 2 in fifty: '
+         'tokio_util::codec::Framed<Substream, codec> over the scripted carrier (send / close / next with stalls), outcome. (D) kind 40, 8 in fifty: '
+         'the real Substream of the TCP or WebSocket type over a REAL yamux Connection polled by hand, the remote end played by the harness in raw '
+         'yamux frames: the case fixes the starting window (0,1,2,5,100,1000,16383-16385,40000,256 KiB, more), every window update (size, moment), '
+         'when the connection task runs and an optional RST; operations as in (A); after every operation result, Sink state and the payload the peer '
+         "holds, at the end the length of every data frame and all payload bytes: equal to the model's Yamux.v (credit, 16 KiB split, 11-slot "
+         'command channel) frame for frame. kind 41, 4 in fifty: the reading side, the harness sends data frames of chosen sizes, FIN or RST; every '
+         "poll_next with state. (E) stream `extra` (tools/c04_extra_streams.sh, crate harness_c04x built with litep2p's quic+webrtc features; 250 "
+         'cases quick, 4000 thorough): kind 50/51 the real webrtc::Substream under substream::Substream, the harness playing the connection side '
+         'through SubstreamHandle (poll k times, FIN_ACK, STOP_SENDING, RESET_STREAM, payload messages of chosen sizes up to over-long ones, bursts '
+         'of 50-300 messages around the 256-slot inbound channel), per call; kinds 60-62 the scenario of (B) over the QUIC substream type between '
+         'two litep2p nodes on the loopback interface (12 codec configurations, messages up to 2 MB).',
+ 'trusted_base': ['the scripted carrier of harness/src/c04.rs stands for a transport substream in kinds < 10, 30, 31; next to it the real carriers '
+                  'are driven: tcp::Substream / websocket::Substream over a real yamux connection (kinds 10-22, 40, 41), webrtc::Substream (50, 51), '
+                  'quic::Substream (60-62)',
+                  'in kinds 40/41 the remote yamux endpoint is ~60 lines of harness code speaking the yamux frame format (header, Data, '
+                  'WindowUpdate, FIN, RST)',
+                  'message payloads in the runs are a fill byte plus an end marker (run-length encoded in traces); the theorems quantify over '
+                  'arbitrary byte lists',
+                  'unsigned_varint 0.8 encode/decode and UviBytes::{serialise,deserialise} are transcribed by hand into Model.v / Codec.v (enc_fuel, '
+                  'scan, tdecode, tencode) and exercised by the differential runs; tokio-util Framed, quinn and str0m-free WebRTC plumbing are '
+                  'third-party code that is only run',
+                  'flush_all / the carrier-generic runners use explicit fuel: C04_flush_all_fuel_adequate, C04_carrier_poll_total; a run that '
+                  'exhausts the fuel of a waiting loop is a visible disagreement'],
+ 'level_text': 'Proof: on the model of the repaired src/substream/mod.rs (fix: commits F-C04a..f) and src/codec (F-C04h) — receiver totality for '
+               'every codec, byte stream, fragmentation and polling pattern (no panic, read buffer <= max(configured size, 1024)); '
+               'malformed/oversized length => ReadFailure without allocation; reader round trip for every script incl. errors and end of stream at '
+               'any point; conservation invariant (carrier bytes ++ queued bytes = encodings of the accepted messages in call order) over every '
+               'history of poll_ready/start_send/poll_flush/send_framed/poll_close/close and every carrier behaviour incl. write errors and '
+               'zero-length accepts (C04_mixed_paths_in_order); poll_flush reports Ready(Ok) only with nothing queued; send_framed hands over the '
+               'queued bytes and then exactly its frame when it returns Ok; close = carrier shutdown only (C04_close_sends_nothing, '
+               'C04_close_after_flush_complete); errors reported by the call that met them; Pending only after a Pending carrier call; sender '
+               'refusal; backpressure bound; end-to-end round trip. NEW: (1) the tokio-util codecs Identity / UnsignedVarint: round trip under every '
+               'fragmentation of the Framed loop, refusal at the encoder, oversized / malformed length => error at the decoder with a bounded '
+               'pending length, same wire format and limits as the Substream framing, interoperation in both directions (C04_codec_*, '
+               'C04_substream_to_codec, C04_codec_to_substream). (2) Carriers: the writer re-stated over an abstract carrier state machine with the '
+               'log of its answers; every history over every carrier is a history of the script-driven writer on that log '
+               '(C04_carrier_refines_script), hence in-order conservation and complete flush / send_framed over every carrier (C04_carrier_in_order, '
+               'C04_carrier_complete, C04_carrier_poll_total) — a short count from poll_write never shortens a message. (3) yamux: '
+               'Stream::poll_write as accept min(offered, window, 16 KiB), Pending at zero credit or full command channel '
+               '(C04_yamux_write_discipline); bytes accepted never exceed the credit given (C04_yamux_credit_respected); no failure and no WriteZero '
+               'on a stream that is not reset, a stalled writer waits for credit or the connection task only (C04_yamux_stalls_only_for_credit); the '
+               'reader over the receive buffer is poll_next on a script; and for BOTH ends with any schedule of operations, window updates, '
+               'deliveries and polls the frames read are an initial segment of the messages handed over and all of them once nothing is queued and '
+               'everything arrived, without further action of the sender (C04_yamux_end_to_end). (4) WebRTC substream: one message <= MAX_FRAME_SIZE '
+               'per poll_write through a 256-slot channel, reassembly in poll_read; it is a carrier, its reader is poll_next on a script '
+               '(C04_webrtc_*). The models are tied to the Rust code by per-call differential runs with state dumps: scripted carrier, real yamux '
+               'with a hand-played peer (frame lengths and Pending points must match exactly), real webrtc::Substream with a hand-played connection '
+               'side, the codec methods one by one; and by end-to-end runs over yamux (TCP, WebSocket types) and QUIC.',
+ 'level_note': 'Trusted: Coq kernel, ExtrOcamlBasic extraction, harness and hooks, hand transcription of unsigned_varint. Environment (universally '
+               'quantified, not modelled as a policy): when and how much credit the yamux peer grants (receive-window policy, RTT auto-tuning), when '
+               'the connection task runs, what the WebRTC connection side does. Not modelled: waker identity (checked by the harness in kinds < 10; '
+               'the model shows that Pending follows a Pending carrier call); a send_framed call that fails or is dropped midway leaves a partial '
+               'frame (caller is told; documented as not cancellation safe) — histories are quantified over send_framed calls that ran to '
+               'completion; UnsignedVarint(None) allocates any announced length (proved as such, see also C19); Identity(0) delivers nothing (proved '
+               "as such); the QUIC arm of send_framed (write_all_chunks) and quic::Substream are run end to end only; SubstreamHandle's FIN_ACK "
+               'timeout; SubstreamType::Mock (cfg(test) only); SubstreamSet; tokio-util Framed internals. Observations, not defects of C04: close '
+               "drops frames that were only start_send'ed, and the backpressure flush of poll_ready is given up below the boundary (a close without "
+               'flush may cut a frame); a WebRTC reader more than 256 messages behind is reset by design; WebRTC poll_flush answers Ok after '
+               'STOP_SENDING until the next write.',
  'assumptions': ['message length < 2^64 (usize)',
-                 'Identity(0) excluded from the completeness clause (C04_identity_zero states what happens instead)',
-                 'every send_framed call of a history returned Ok or PermissionDenied (a failed or abandoned call is reported to the caller; the stream is then unusable)',
+                 'Identity(0) excluded from the completeness clause (C04_identity_zero states what happens instead); the tokio-util Identity codec '
+                 'cannot be built with 0 (assertion)',
+                 'every send_framed call of a history returned Ok or PermissionDenied (a failed or abandoned call is reported to the caller; the '
+                 'stream is then unusable)',
                  'Substream::close(self) ignores errors: C04_close_all_after_flush_complete assumes a carrier that does not fail',
-                 'observation, not part of the property: close drops start_send frames that were never flushed (C04_close_drops_unflushed); callers flush first',
-                 '0 < BACKPRESSURE_BOUNDARY (checked against the source constant)']}
+                 'observation, not part of the property: close drops start_send frames that were never flushed (C04_close_drops_unflushed); callers '
+                 'flush first',
+                 '0 < BACKPRESSURE_BOUNDARY, YAMUX DEFAULT_CREDIT = 256 KiB, MAX_FRAME_SIZE, MAX_INFLIGHT_MESSAGES (checked against the source '
+                 'constants); yamux split_send_size = 16 KiB and the 10+1 slots of the stream command channel are third-party defaults, checked by '
+                 'the exact differential run of kind 40',
+                 'carrier-generic theorems speak about runs whose waiting loops got enough fuel (result Some)'],
+ 'clause_map': [['for every framing configuration (fixed-size frames of any size, length-prefixed frames with any maximum) the sequence of messages '
+                 'received equals the sequence sent, regardless of message sizes and fragmentation',
+                 'C04_roundtrip, C04_reader_roundtrip, C04_mixed_paths_in_order, C04_varint_roundtrip; tokio-util codecs: C04_codec_roundtrip, '
+                 'C04_codec_same_wire, C04_substream_to_codec, C04_codec_to_substream; as the code behaves at the edges: C04_identity_zero, '
+                 'C04_varint_none_unbounded_alloc',
+                 'kinds < 10 (per call, scripted carrier), 10-22 (end to end over yamux), 30/31 (codec methods / Framed), 60-62 (QUIC end to end)'],
+                ['... regardless of flow-control stalls',
+                 'C04_carrier_refines_script, C04_carrier_in_order, C04_yamux_write_discipline, C04_yamux_credit_respected, '
+                 'C04_yamux_stalls_only_for_credit, C04_yamux_reader_refines_script, C04_yamux_end_to_end, C04_webrtc_write_discipline, '
+                 'C04_webrtc_reader_refines_script, C04_backpressure',
+                 'kind 40/41 (real yamux, the harness is the peer and fixes window and updates; data-frame lengths compared), kind 50/51 (real '
+                 'webrtc::Substream), kinds 10-22 / 60-62 with messages of several windows'],
+                ['... whether sent through the sink interface or the direct framed-send call',
+                 'C04_mixed_paths_in_order (both APIs freely mixed), C04_send_framed_complete, C04_carrier_complete',
+                 'kinds < 10, 40, 50: operation lists of poll_ready/start_send/poll_flush/send_framed/poll_close/close in random interleavings'],
+                ['a message larger than the maximum is refused at the sender',
+                 'C04_sender_refuses, C04_codec_encode_refuses',
+                 'every kind: messages of max+1 / wrong size / empty; result code and unchanged state / output buffer'],
+                ['an oversized or malformed incoming length yields an error at the receiver, never a panic',
+                 'C04_receiver_total, C04_receiver_rejects, C04_codec_decode_rejects',
+                 'kinds < 10, 30, 41, 51 with raw wires: truncated, non-minimal, 10/11-byte and oversized prefixes, polled on after the error; '
+                 'panics are caught and fail the oracle'],
+                ['when a send or flush is reported complete the whole message has been handed to the transport',
+                 'C04_flush_complete, C04_hist_flush_complete, C04_send_framed_complete, C04_carrier_complete, C04_write_error_reported, '
+                 'C04_send_framed_error_reported',
+                 'kinds < 10: bytes handed to the carrier after every call; kinds 40/50: the Sink state after every call and, once nothing is '
+                 'queued, all bytes with the peer after the connection side ran'],
+                ['... so the peer receives it without any further action by the sender',
+                 'C04_yamux_end_to_end (last clause: needs no writer step), C04_roundtrip, C04_close_after_flush_complete, '
+                 'C04_close_all_after_flush_complete, C04_pending_has_waker_write, C04_pending_has_waker_read',
+                 'kinds 10-22 / 60-62: the writer stops after flush / send_framed, a concurrent reader must get every frame; kind 40: final run of '
+                 'the connection task only']]}
